@@ -171,6 +171,9 @@ Exec(w, call) ==
     [] call.m = "hook"     -> HookCall(w, call)
     [] call.m \in ContractMsgs -> ExecContract(w, call)
     [] call.m \in TreasuryMsgs -> ExecTreasury(w, call)
+    \* the store is rewritten into the 1.0.0 layout and migrated to 1.1.0 again (Migration.tla): on the
+    \* abstract state this is the identity, so that the history simply continues across the upgrade
+    [] call.m = "migrate_roundtrip" -> IF call.eligible THEN Done(w, << >>) ELSE Refused(w, {"not_expressible_in_legacy_layout"})
 
 ---------------------------------------------------------------------------
 \* The world right after instantiate (contract.rs instantiate + token-factory create-denom)
